@@ -42,6 +42,67 @@ mod sink {
     static DELAY: AtomicU8 = AtomicU8::new(0);
     pub const HOOKED: bool = true;
 
+    // forced preemption: one chosen thread is held at one chosen count operation (before or after
+    // it) until every other participant has finished its program (or a yield budget runs out).
+    // Only relaxed atomics and yields: no happens-before edge is added.
+    use std::sync::atomic::{AtomicBool, AtomicUsize};
+    static ARMED: AtomicBool = AtomicBool::new(false);
+    static PAUSE_TID: AtomicU8 = AtomicU8::new(255);
+    static PAUSE_AT: AtomicUsize = AtomicUsize::new(0);
+    static PAUSE_PHASE: AtomicU8 = AtomicU8::new(0);
+    static DONE: AtomicUsize = AtomicUsize::new(0);
+    static NEED: AtomicUsize = AtomicUsize::new(0);
+    thread_local! {
+        static ORD: Cell<usize> = const { Cell::new(0) };
+    }
+    pub fn set_pause(tid: u8, at: usize, phase: u8) {
+        PAUSE_TID.store(tid, Relaxed);
+        PAUSE_AT.store(at, Relaxed);
+        PAUSE_PHASE.store(phase, Relaxed);
+    }
+    pub fn arm(participants: usize) {
+        DONE.store(0, Relaxed);
+        NEED.store(participants.saturating_sub(1), Relaxed);
+        ORD.with(|c| c.set(0));
+        ARMED.store(true, Relaxed);
+    }
+    pub fn disarm() {
+        ARMED.store(false, Relaxed);
+    }
+    pub fn thread_done() {
+        DONE.fetch_add(1, Relaxed);
+    }
+    pub fn ordinal() -> usize {
+        ORD.try_with(|c| c.get()).unwrap_or(0)
+    }
+    fn maybe_pause(done: bool) {
+        let ord = ORD.try_with(|c| {
+            let o = c.get();
+            if !done {
+                c.set(o + 1);
+                o
+            } else {
+                o.wrapping_sub(1)
+            }
+        });
+        let ord = match ord {
+            Ok(o) => o,
+            Err(_) => return,
+        };
+        if !ARMED.load(Relaxed) || PAUSE_TID.load(Relaxed) != crate::tk::thread_ix() {
+            return;
+        }
+        if ord != PAUSE_AT.load(Relaxed) || PAUSE_PHASE.load(Relaxed) != done as u8 {
+            return;
+        }
+        let budget = if cfg!(miri) { 400 } else { 20_000 };
+        let mut n = 0;
+        while DONE.load(Relaxed) < NEED.load(Relaxed) && n < budget {
+            std::thread::yield_now();
+            n += 1;
+        }
+    }
+
     fn delay() {
         let mode = DELAY.load(Relaxed);
         if mode == 0 {
@@ -75,8 +136,15 @@ mod sink {
         }
     }
 
+    pub static AFTER_FREE: AtomicUsize = AtomicUsize::new(0);
+
     fn on_event(ev: &Event) {
         delay();
+        maybe_pause(ev.done);
+        if !ev.done && crate::shadow::state_at(ev.addr) == 2 {
+            // the count lives at the start of a block the allocator monitor has already seen freed
+            AFTER_FREE.store(ev.addr, Relaxed);
+        }
         if !ev.done {
             return;
         }
@@ -129,6 +197,14 @@ mod sink {
     pub fn seed_thread(_seed: u64) {}
     pub fn take() -> Vec<Rec> {
         Vec::new()
+    }
+    pub static AFTER_FREE: std::sync::atomic::AtomicUsize = std::sync::atomic::AtomicUsize::new(0);
+    pub fn set_pause(_tid: u8, _at: usize, _phase: u8) {}
+    pub fn arm(_participants: usize) {}
+    pub fn disarm() {}
+    pub fn thread_done() {}
+    pub fn ordinal() -> usize {
+        0
     }
 }
 
@@ -201,6 +277,7 @@ impl<A: Pay + Send + Sync, B: Pay + Send + Sync> Hnd for H2<A, B> {
 // ---------------------------------------------------------------------------------------------
 
 pub struct CStats {
+    pub last_ords: Vec<usize>,
     pub counts: Counts,
     pub ileave: BTreeSet<u64>,
     pub nontrivial: BTreeSet<u64>,
@@ -210,6 +287,7 @@ pub struct CStats {
 impl CStats {
     pub fn new() -> CStats {
         CStats {
+            last_ords: Vec::new(),
             counts: Counts::default(),
             ileave: BTreeSet::new(),
             nontrivial: BTreeSet::new(),
@@ -219,6 +297,7 @@ impl CStats {
 }
 
 struct ThreadOut {
+    ords: usize,
     viol: Option<Viol>,
     log: Vec<Rec>,
     trace: Vec<String>,
@@ -292,7 +371,9 @@ fn run_prog<X: Hnd>(mut hs: Vec<X>, mut rng: Rng, len: usize, tix: u8) -> Thread
             std::mem::forget(h);
         }
     }
+    sink::thread_done();
     ThreadOut {
+        ords: sink::ordinal(),
         viol,
         log: sink::take(),
         trace,
@@ -401,6 +482,25 @@ fn finish(
     st: &mut CStats,
     scen: &str,
 ) -> Result<(), (Viol, Vec<String>)> {
+    sink::disarm();
+    st.last_ords = outs.iter().map(|o| o.ords).collect();
+    let touched = sink::AFTER_FREE.swap(0, Relaxed);
+    if touched != 0 {
+        let props2: &'static str = match props {
+            "C02" => "C02,C01",
+            "C03" => "C03,C01",
+            "C08" => "C08,C01",
+            _ => "C09,C01",
+        };
+        return Err((
+            Viol {
+                props: props2,
+                oracle: "count-after-free",
+                msg: format!("[{}] a reference-count operation was performed at {:#x} after that block had been returned to the allocator", scen, touched),
+            },
+            outs.iter().flat_map(|o| o.trace.iter().cloned()).collect(),
+        ));
+    }
     let mut trace: Vec<String> = Vec::new();
     for o in &outs {
         trace.extend(o.trace.iter().cloned());
@@ -457,6 +557,32 @@ fn finish(
     Ok(())
 }
 
+/// Join a worker; a panic inside it (the workers only call into the library and the monitors, so
+/// this is one of the crate's own assertions or an abort-free crash) is a violation, not a harness error.
+fn join_out<T>(h: std::thread::JoinHandle<T>, props: &'static str, scen: &str) -> Result<T, (Viol, Vec<String>)> {
+    match h.join() {
+        Ok(v) => Ok(v),
+        Err(e) => {
+            let msg = if let Some(s) = e.downcast_ref::<&str>() {
+                s.to_string()
+            } else if let Some(s) = e.downcast_ref::<String>() {
+                s.clone()
+            } else {
+                "<non-string panic>".to_string()
+            };
+            sink::disarm();
+            Err((
+                Viol {
+                    props,
+                    oracle: "panic",
+                    msg: format!("[{}] a thread panicked inside the library: {}", scen, msg),
+                },
+                vec![],
+            ))
+        }
+    }
+}
+
 fn spawn<T: Send + 'static>(f: impl FnOnce() -> T + Send + 'static) -> std::thread::JoinHandle<T> {
     shadow::untracked(|| {
         std::thread::Builder::new()
@@ -491,6 +617,7 @@ pub fn clonedrop<X: Hnd>(
         roots.push(x);
     }
     let _ = sink::take();
+    sink::arm(nthreads);
     // hand every worker 1-2 handles obtained in assorted ways
     let mut handles = Vec::new();
     for t in 1..nthreads {
@@ -513,19 +640,7 @@ pub fn clonedrop<X: Hnd>(
     let mrng = Rng::new(seed ^ 0xAAAA);
     let mut outs = vec![shadow::tracked(|| run_prog(roots, mrng, len, 0))];
     for h in handles {
-        match h.join() {
-            Ok(o) => outs.push(o),
-            Err(_) => {
-                return Err((
-                    Viol {
-                        props: "",
-                        oracle: "harness",
-                        msg: "worker thread panicked".into(),
-                    },
-                    vec![],
-                ))
-            }
-        }
+        outs.push(join_out(h, "C02", "clonedrop")?);
     }
     let r = finish(outs, &allocs, "C02", st, "clonedrop");
     if r.is_ok() {
@@ -587,6 +702,7 @@ pub fn uniqpoll(
     let budget: usize = if cfg!(miri) { 400 } else { 200_000 };
     let mut rng = Rng::new(seed);
     let _ = sink::take();
+    sink::arm(1 + nsharers);
     let mut outs: Vec<ThreadOut> = Vec::new();
     let mut allocs = Vec::new();
     let granted;
@@ -627,7 +743,9 @@ pub fn uniqpoll(
                 } else {
                     std::mem::forget(h);
                 }
+                sink::thread_done();
                 ThreadOut {
+                    ords: sink::ordinal(),
                     viol,
                     log: sink::take(),
                     trace: vec![format!("t{}: 3 reads, release", tix)],
@@ -664,7 +782,9 @@ pub fn uniqpoll(
             }
         }
         granted = g;
+        sink::thread_done();
         let out0 = ThreadOut {
+            ords: sink::ordinal(),
             viol,
             log: Vec::new(),
             trace: vec![format!(
@@ -674,7 +794,7 @@ pub fn uniqpoll(
             reads: 0,
         };
         for h in hs {
-            outs.push(h.join().expect("join"));
+            outs.push(join_out(h, "C03", "uniqpoll")?);
         }
         if let Err(e) = root.header.header.check() {
             return Err((
@@ -721,7 +841,9 @@ pub fn uniqpoll(
                 } else {
                     std::mem::forget(h);
                 }
+                sink::thread_done();
                 ThreadOut {
+                    ords: sink::ordinal(),
                     viol,
                     log: sink::take(),
                     trace: vec![format!("t{}: 3 reads through {}, release", tix, "handle")],
@@ -821,8 +943,9 @@ pub fn uniqpoll(
             }
         }
         granted = g;
+        sink::thread_done();
         for h in hs {
-            outs.push(h.join().expect("join"));
+            outs.push(join_out(h, "C03", "uniqpoll")?);
         }
         let mut final_check = Ok(());
         if let Some(a) = &root_opt {
@@ -852,6 +975,7 @@ pub fn uniqpoll(
         outs.insert(
             0,
             ThreadOut {
+                ords: sink::ordinal(),
                 viol,
                 log: sink::take(),
                 trace: vec![format!(
@@ -887,6 +1011,7 @@ pub fn cow(
     tk::set_thread_ix(0);
     let mut rng = Rng::new(seed);
     let _ = sink::take();
+    sink::arm(1 + nreaders);
     let root: Arc<TV> = shadow::tracked(|| Arc::new(TV::make(40)));
     let orig_block = root.heap_ptr() as usize;
     let allocs = vec![(root.id(), orig_block)];
@@ -933,6 +1058,7 @@ pub fn cow(
                 std::mem::forget(h);
             }
             ThreadOut {
+                ords: sink::ordinal(),
                 viol,
                 log: sink::take(),
                 trace: vec![format!("t{}: {} reads, release", tix, nreads)],
@@ -972,6 +1098,7 @@ pub fn cow(
         }
     });
     let cloned = tk::clones() - clones0;
+    sink::thread_done();
     if new_tag != 90 {
         viol = Some(Viol {
             props: "C08",
@@ -995,7 +1122,7 @@ pub fn cow(
     }
     let mut outs = Vec::new();
     for h in hs {
-        outs.push(h.join().expect("join"));
+        outs.push(join_out(h, "C08", "cow")?);
     }
     let chk = match (&w, &woff) {
         (Some(a), _) => a.check(),
@@ -1016,6 +1143,7 @@ pub fn cow(
     outs.insert(
         0,
         ThreadOut {
+            ords: sink::ordinal(),
             viol,
             log: sink::take(),
             trace: vec![format!(
@@ -1062,6 +1190,7 @@ pub fn unwraprace(seed: u64, nthreads: usize, st: &mut CStats) -> Result<(), (Vi
     tk::set_thread_ix(0);
     let mut rng = Rng::new(seed);
     let _ = sink::take();
+    sink::arm(nthreads);
     let root: Arc<TV> = shadow::tracked(|| Arc::new(TV::make(60)));
     let orig = root.id();
     let allocs = vec![(orig, root.heap_ptr() as usize)];
@@ -1124,8 +1253,10 @@ pub fn unwraprace(seed: u64, nthreads: usize, st: &mut CStats) -> Result<(), (Vi
                     }
                 }
             });
+            sink::thread_done();
             (
                 ThreadOut {
+                    ords: sink::ordinal(),
                     viol,
                     log: sink::take(),
                     trace: vec![format!(
@@ -1141,6 +1272,7 @@ pub fn unwraprace(seed: u64, nthreads: usize, st: &mut CStats) -> Result<(), (Vi
         }));
     }
     let mut outs = vec![ThreadOut {
+        ords: sink::ordinal(),
         viol: None,
         log: sink::take(),
         trace: vec![format!("t0: handed {} handles out", nthreads)],
@@ -1149,7 +1281,7 @@ pub fn unwraprace(seed: u64, nthreads: usize, st: &mut CStats) -> Result<(), (Vi
     let mut receivers = 0;
     let mut sigs = String::new();
     for h in hs {
-        let (o, got) = h.join().expect("join");
+        let (o, got) = join_out(h, "C09", "unwraprace")?;
         if got == 1 {
             receivers += 1;
         }
@@ -1201,6 +1333,10 @@ pub fn unwraprace(seed: u64, nthreads: usize, st: &mut CStats) -> Result<(), (Vi
 }
 
 // ---------------------------------------------------------------------------------------------
+
+pub fn set_pause(tid: u8, at: usize, phase: u8) {
+    sink::set_pause(tid, at, phase);
+}
 
 pub fn install_hook(delay_mode: u8, seed: u64) -> bool {
     sink::install(delay_mode, seed);
